@@ -225,6 +225,11 @@ def step(part, n, src=None):
     conds = part_conditions(part, n)
     if conds is None:
         return []                                          # wrong container kind
+    kinds = set()
+    for c in conds:
+        kinds |= cond_kinds(c)
+    if ("key" in kinds and isinstance(n, list)) or ("index" in kinds and isinstance(n, dict)):
+        return []                                          # a key condition refuses a list, an index condition a mapping
     ks, vs = items_of(n)
     sel = [True] * len(ks)
     for c in conds:
